@@ -124,6 +124,10 @@ def check_fault(case, f, m, out, log, idx):
     if r.exc is not None:
         out.violate('exception', 'exception|%s|%s' % (kind, r.exc_sig), '%s: %s escaped: %s' % (tag, r.exc_sig, r.exc), fault=f)
         return
+    lost = [x for x in (r.logtap.engine_errors() if r.logtap is not None else []) if 'No current segment in error_handler' in x]
+    if lost:
+        out.violate('lost', 'error-lost|' + sigbase, '%s: the error handler dropped an error it was given: %s' % (tag, lost[0][:200]), fault=f)
+        return
     if r.verdict is not False:
         out.violate('accepted', 'accepted|' + sigbase, '%s: verdict %r for a faulty document' % (tag, r.verdict), fault=f)
         return
